@@ -515,6 +515,27 @@ class RedlineEngine:
 
         return ins
 
+    def _track_insert_inline_lines(self, text: str, anchor_run: Optional[Run] = None):
+        """One inline w:ins for a text with line breaks: every break becomes a w:br."""
+        ins = self._create_track_change_tag("w:ins")
+        for i, line in enumerate(re.split(r"[\r\n]", text)):
+            if i > 0:
+                br_run = create_element("w:r")
+                if anchor_run and anchor_run._element.rPr is not None:
+                    br_run.append(deepcopy(anchor_run._element.rPr))
+                br_run.append(create_element("w:br"))
+                ins.append(br_run)
+            for seg_text, seg_props in self._parse_inline_markdown(line):
+                run = create_element("w:r")
+                if anchor_run and anchor_run._element.rPr is not None:
+                    run.append(deepcopy(anchor_run._element.rPr))
+                self._apply_run_props(run, seg_props)
+                t = create_element("w:t")
+                self._set_text_content(t, seg_text)
+                run.append(t)
+                ins.append(run)
+        return ins
+
     def track_delete_run(self, run: Run):
         parent = run._r.getparent()
         if parent is None:
@@ -892,10 +913,22 @@ class RedlineEngine:
                 if r is not None:
                     style_source = Run(r, parent)
 
+                # The insertion is replaced as a whole, so the new insertion carries its whole text
+                # with the range replaced - not only the new text of the range.
+                ins_spans = [s for s in active_mapper.spans if s.ins_id == ins_id]
+                ins_text = "".join(s.text for s in ins_spans)
+                rel_start = max(0, start_idx - ins_spans[0].start) if ins_spans else 0
+                replacement = ins_text[:rel_start] + (edit.new_text or "") + ins_text[rel_start + length :]
+
                 self._reject_change(ins_id, root=story_root)
 
-                if edit.new_text:
-                    ins_elem = self.track_insert(edit.new_text, anchor_run=style_source, comment=edit.comment)
+                if replacement:
+                    if re.search(r"[\r\n]", replacement):
+                        # Line breaks of the rewritten insertion stay line breaks of its paragraph
+                        # (paragraphs cannot be anchored on the run that was just removed).
+                        ins_elem = self._track_insert_inline_lines(replacement, style_source)
+                    else:
+                        ins_elem = self.track_insert(replacement, anchor_run=style_source, comment=edit.comment)
                     if ins_elem is not None:
                         parent.insert(index, ins_elem)
 
